@@ -248,7 +248,7 @@ pub fn record_bid_events(events: &mut BTreeMap<String, Vec<Value>>, pre: &Book, 
     let coinj = |a: u128, d: &str| json!({"amount": a.to_string(), "denom": d});
     let feej = |a: u128| if a > 0 { coinj(a, &p.quote_denom) } else { Value::Null };
     let blk = json!({"height": 12345, "time": "1571797419879305533"});
-    let (db, dq, df) = (q.acc_base - p.acc_base, q.acc_quote - p.acc_quote, q.acc_fee - p.acc_fee);
+    let (db, dq, df) = (q.acc_base.saturating_sub(p.acc_base), q.acc_quote.saturating_sub(p.acc_quote), q.acc_fee.saturating_sub(p.acc_fee));
     if kind == "execute_match" {
         let price = body["price"].as_str().unwrap_or("");
         let gross = crate::exact::parse_dec(price).and_then(|x| x.mul_int(db)).unwrap_or(dq);
